@@ -325,6 +325,11 @@ func (m *Message) GetString(ctx context.Context) (string, error) {
 		if err != nil {
 			return "", err
 		}
+		// The length prefix is a peer-controlled signed integer; a negative
+		// value must not reach make() below.
+		if length < 0 {
+			return "", fmt.Errorf("invalid string length %d", length)
+		}
 
 		if err := m.ensureData(ctx, int(length)); err != nil {
 			return "", err
@@ -398,6 +403,11 @@ func (m *Message) GetStringWithMaxSize(ctx context.Context, maxSize int) (string
 		length, err := m.GetInt32(ctx)
 		if err != nil {
 			return "", err
+		}
+		// The length prefix is a peer-controlled signed integer; a negative
+		// value must not reach make() below.
+		if length < 0 {
+			return "", fmt.Errorf("invalid string length %d", length)
 		}
 
 		// Check if length exceeds maxSize - if so, only read maxSize bytes
